@@ -11,7 +11,10 @@
 //!     length fields, offered to the four FromStr entry points.
 //!  4. prefix.relations : all pairs / triples of a boundary-dense prefix domain.
 //!  5. maxlen.relations, origin.relations : all pairs / triples.
-//!  6. asn.text, asnset.build, asnset.ops.
+//!  6. asn.text, asnset.build, asnset.ops (all pairs of short sequences).
+//!  7. asnset.sizes : SIZE dimension - structured large sets (15..100 items)
+//!     against boundary-sharing small sets (0..3 items), all size pairs
+//!     0..=130 x 0..=8, both argument orders (size- or ratio-dependent paths).
 //!
 //! Reference model: integers only. A prefix is (family, address as u128 in the
 //! family's width, length); its range is [addr, addr | hostmask]. Sets are
@@ -704,6 +707,100 @@ fn main() {
             else { format!("ordered pairs of the {} of {total} sequences (length <= {op_len}) whose collected set is canonical x 4 operations; the others fail C13.asnset.from_iter", total - skipped_operands) });
     }
 
+
+    // ---------------------------------------------------------- 10. asnset.sizes
+    // SIZE dimension: merge walks may switch strategy by size or size ratio.
+    let sp = ctx.space("asnset.sizes",
+        "structured set families: (a) large sets of 15,16,17,31,32,33,48,64,100 items (arithmetic progressions with step 1 and 3 from 64500, a progression ending at u32::MAX, a progression with one middle item removed) x every small set of 0..=3 items drawn from {below min, min, non-member above min, middle member, middle non-member, max, above max}, both argument orders; (b) every size pair 0..=130 x 0..=8 (thorough: 0..=400 x 0..=24) with the small set taken as the bottom / top / evenly spread members / non-members of the large one, both orders; (c) all pairs of the large sets; union, intersection, difference, symmetric_difference against BTreeSet, contains for every value in [min-1, max+1] (capped at 400 probes), from_iter from reversed and doubled input; non-trivial = pairs with a non-empty intersection");
+    {
+        let mk = |v: &BTreeSet<u32>| -> SmallAsnSet { v.iter().map(|&x| Asn::from_u32(x)).collect() };
+        let mut pairs: Vec<(BTreeSet<u32>, BTreeSet<u32>)> = Vec::new();
+        let mut larges: Vec<BTreeSet<u32>> = Vec::new();
+        for &nitems in &[15u32, 16, 17, 31, 32, 33, 48, 64, 100] {
+            let fam: Vec<BTreeSet<u32>> = vec![
+                (0..nitems).map(|k| 64500 + k).collect(),
+                (0..nitems).map(|k| 64500 + 3 * k).collect(),
+                (0..nitems).map(|k| u32::MAX - 5 * (nitems - 1 - k)).collect(),
+                (0..=nitems).filter(|k| *k != nitems / 2).map(|k| 64500 + 3 * k).collect(),
+            ];
+            for l in fam {
+                let (mn, mx) = (*l.iter().next().unwrap(), *l.iter().next_back().unwrap());
+                let mid_member = *l.iter().nth(l.len() / 2).unwrap();
+                let mid_non = (mn..mx).find(|x| !l.contains(x) && *x > mid_member);
+                let above_min_non = (mn + 1..mx).find(|x| !l.contains(x));
+                let mut cands: Vec<u32> = vec![mn, mid_member, mx];
+                if mn > 0 { cands.push(mn - 1) }
+                if mx < u32::MAX { cands.push(mx + 1) }
+                cands.extend(mid_non); cands.extend(above_min_non);
+                cands.sort(); cands.dedup();
+                for mask in 0u32..(1 << cands.len()) {
+                    if mask.count_ones() > 3 { continue }
+                    let small: BTreeSet<u32> = cands.iter().enumerate().filter(|(i, _)| mask >> i & 1 == 1).map(|(_, x)| *x).collect();
+                    pairs.push((l.clone(), small.clone())); pairs.push((small, l.clone()));
+                }
+                larges.push(l);
+            }
+        }
+        for a in &larges { for b in &larges { pairs.push((a.clone(), b.clone())) } }
+        let (max_m, max_k): (u32, u32) = ctx.tier.pick((130, 8), (400, 24));
+        for m in 0..=max_m {
+            let large: BTreeSet<u32> = (0..m).map(|k| 1000 + 2 * k).collect();
+            for k in 0..=max_k {
+                let k = k.min(m);
+                let items: Vec<u32> = large.iter().copied().collect();
+                let fams: Vec<BTreeSet<u32>> = vec![
+                    items.iter().take(k as usize).copied().collect(),
+                    items.iter().rev().take(k as usize).copied().collect(),
+                    (0..k).map(|i| items[(i as usize * items.len()) / k.max(1) as usize]).collect(),
+                    (0..k).map(|i| 1001 + 2 * (i * m / k.max(1))).collect(),
+                ];
+                for s_ in fams { pairs.push((large.clone(), s_.clone())); pairs.push((s_, large.clone())) }
+            }
+        }
+        let res: Vec<(Fails, u64, u64, Oc)> = pairs.par_iter().map(|(a, b)| {
+            let mut fl = Fails::new(); let mut oc: Oc = BTreeMap::new(); let mut ev = 0u64;
+            let show = |x: &BTreeSet<u32>| if x.len() <= 6 { format!("{:?}", x.iter().collect::<Vec<_>>()) } else {
+                let v: Vec<u32> = x.iter().copied().collect(); let step = v[1] - v[0];
+                if v.windows(2).all(|w| w[1] - w[0] == step) { format!("{{{}, {}, .. {} ({} items, step {step})}}", v[0], v[1], v[v.len() - 1], v.len()) } else { format!("{v:?}") } };
+            let wit = || format!("left={} right={}", show(a), show(b));
+            let (l, r) = match guard(|| (mk(a), mk(b))) { Ok(x) => x, Err(p) => { fl.fail("C13.asnset.from_iter", &wit, || p); return (fl, 0, 0, oc) } };
+            for (name, set, model) in [("left", &l, a), ("right", &r, b)] {
+                ev += 1;
+                fl.check("C13.asnset.from_iter", &wit, || {
+                    let want: Vec<u32> = model.iter().copied().collect();
+                    if set.iter().map(|x| x.into_u32()).collect::<Vec<_>>() != want || set.len() != want.len() { return Err(format!("{name} operand does not iterate as its items")) }
+                    let doubled: SmallAsnSet = want.iter().rev().chain(want.iter()).map(|&x| Asn::from_u32(x)).collect();
+                    if doubled != *set { return Err(format!("{name} operand built from reversed + repeated input differs")) }
+                    if let (Some(&mn), Some(&mx)) = (model.iter().next(), model.iter().next_back()) {
+                        let lo = mn.saturating_sub(1); let hi = mx.saturating_add(1).min(lo.saturating_add(400));
+                        for x in (lo..=hi).chain([mx, mx.saturating_add(1)]) { if set.contains(Asn::from_u32(x)) != model.contains(&x) { return Err(format!("{name}.contains({x}) = {}", set.contains(Asn::from_u32(x)))) } }
+                    } else if set.contains(Asn::from_u32(0)) || !set.is_empty() { return Err("empty set contains something".into()) }
+                    Ok(())
+                });
+            }
+            let run = |name: &'static str, got: Result<Vec<u32>, String>, want: Vec<u32>, fl: &mut Fails| {
+                match got {
+                    Err(p) => fl.fail(name, &wit, || p),
+                    Ok(g) => if g != want { fl.fail(name, &wit, || format!("gives {g:?}, mathematical result {want:?}")) }
+                }
+            };
+            run("C13.asnset.union", guard(|| l.union(&r).map(|x| x.into_u32()).collect()), a.union(b).copied().collect(), &mut fl);
+            run("C13.asnset.intersection", guard(|| l.intersection(&r).map(|x| x.into_u32()).collect()), a.intersection(b).copied().collect(), &mut fl);
+            run("C13.asnset.difference", guard(|| l.difference(&r).map(|x| x.into_u32()).collect()), a.difference(b).copied().collect(), &mut fl);
+            run("C13.asnset.symmetric_difference", guard(|| l.symmetric_difference(&r).map(|x| x.into_u32()).collect()), a.symmetric_difference(b).copied().collect(), &mut fl);
+            ev += 4;
+            let inter = a.intersection(b).count();
+            let ratio = a.len().max(b.len()) >= 16 * a.len().min(b.len()).max(1);
+            bump(&mut oc, if inter == 0 { "disjoint" } else if a.iter().next_back() == b.iter().next_back() { "sharing-the-maximum" } else { "overlapping" });
+            if ratio { bump(&mut oc, "size-ratio-at-least-16") }
+            (fl, ev, (inter > 0) as u64, oc)
+        }).collect();
+        for (fl, ev, nt, oc) in res { fl.flush(&ctx); sp.evals(ev); sp.nontrivial(nt); sp.merge_outcomes(&oc) }
+        sp.set("pairs", json!(pairs.len())); sp.set("large_set_sizes", json!([15, 16, 17, 31, 32, 33, 48, 64, 100]));
+        sp.sample_str(|| "left={64500, 64503, .. 64545 (16 items, step 3)} right=[64545] : intersection must be [64545]".into());
+        sp.done(true, &format!("{} structured pairs (36 large sets x all small sets of <= 3 boundary items x both orders; all pairs of large sets; sizes 0..={max_m} x 0..={max_k} x 4 placements x both orders) x 4 operations + contains + from_iter", pairs.len()));
+        lap(&t0, &sp.name);
+    }
     let suppressed = SUPPRESSED.load(AtomicOrdering::Relaxed);
     if suppressed > 0 {
         sp.set("failing_cases_counted_but_not_listed_individually", json!(suppressed));
